@@ -96,8 +96,15 @@ func RuleM3(c *Ctx) {
 				return true
 			}
 			if tv, ok := info.Types[cl]; ok {
-				if sl, ok := tv.Type.Underlying().(*types.Slice); ok {
-					if b, ok := sl.Elem().Underlying().(*types.Basic); ok && b.Kind() == types.Uint64 && len(cl.Elts) > 3 {
+				var elem types.Type
+				switch u := tv.Type.Underlying().(type) {
+				case *types.Slice:
+					elem = u.Elem()
+				case *types.Array:
+					elem = u.Elem()
+				}
+				if elem != nil {
+					if b, ok := elem.Underlying().(*types.Basic); ok && b.Kind() == types.Uint64 && len(cl.Elts) > 3 {
 						for _, e := range cl.Elts {
 							if v := bigOf(info, e); v != nil {
 								widths = append(widths, v.Int64())
@@ -590,17 +597,89 @@ func (c *Ctx) m4Reducer(fn *ssa.Function) {
 		if loopOf(cls, first.Block()) != nil {
 			first, loopRead = loopRead, first
 		}
-		if core.PathOf(first.Index) != "(len(p:chChunks)-c:1)" || loopOf(cls, first.Block()) != nil {
+		// indices as k*i + b + n*N with N = len(chChunks)
+		type linN struct {
+			k, b, n int64
+			ok      bool
+		}
+		var ev func(v ssa.Value, sym ssa.Value, d int) linN
+		ev = func(v ssa.Value, sym ssa.Value, d int) linN {
+			v = core.StripConv(v)
+			if d > 12 {
+				return linN{}
+			}
+			if sym != nil && v == sym {
+				return linN{1, 0, 0, true}
+			}
+			if x, isLen := core.IsLenOf(v); isLen && x == ssa.Value(arr) {
+				return linN{0, 0, 1, true}
+			}
+			if _, isC := v.(*ssa.Const); isC {
+				if k, isK := core.ConstInt(v); isK {
+					return linN{0, k, 0, true}
+				}
+			}
+			if bo, isB := v.(*ssa.BinOp); isB {
+				x, y := ev(bo.X, sym, d+1), ev(bo.Y, sym, d+1)
+				if !x.ok || !y.ok {
+					return linN{}
+				}
+				switch bo.Op {
+				case token.ADD:
+					return linN{x.k + y.k, x.b + y.b, x.n + y.n, true}
+				case token.SUB:
+					return linN{x.k - y.k, x.b - y.b, x.n - y.n, true}
+				case token.MUL:
+					if x.k == 0 && x.n == 0 {
+						return linN{x.b * y.k, x.b * y.b, x.b * y.n, true}
+					}
+					if y.k == 0 && y.n == 0 {
+						return linN{y.b * x.k, y.b * x.b, y.b * x.n, true}
+					}
+				}
+			}
+			return linN{}
+		}
+		if f := ev(first.Index, nil, 0); !f.ok || f.k != 0 || f.b != -1 || f.n != 1 || loopOf(cls, first.Block()) != nil {
 			ok = false
 			why = append(why, "the first element consumed is not chChunks[len-1]")
 		}
 		cl := loopOf(cls, loopRead.Block())
-		if cl == nil || core.PathOf(cl.init) != "(len(p:chChunks)-c:2)" || cl.step != -1 || cl.op != token.GEQ || loopRead.Index != ssa.Value(cl.phi) {
+		if cl == nil || (cl.step != 1 && cl.step != -1) {
 			ok = false
-			why = append(why, "the remaining elements are not consumed by a loop j = len-2 .. 0 indexing chChunks[j]")
-		} else if z, isK := core.ConstInt(cl.bound); !isK || z != 0 {
+			why = append(why, "the remaining elements are not consumed by a unit-step loop")
+		} else {
+			idx := ev(loopRead.Index, cl.phi, 0)
+			init, bound := ev(cl.init, nil, 0), ev(cl.bound, nil, 0)
+			lastI := bound
+			switch {
+			case cl.step == 1 && cl.op == token.LEQ, cl.step == -1 && cl.op == token.GEQ:
+			case cl.step == 1 && cl.op == token.LSS:
+				lastI.b--
+			case cl.step == -1 && cl.op == token.GTR:
+				lastI.b++
+			default:
+				lastI.ok = false
+			}
+			if !idx.ok || !init.ok || !lastI.ok || init.k != 0 || lastI.k != 0 {
+				ok = false
+				why = append(why, "the indices of the consuming loop are not linear in the loop variable and len(chChunks)")
+			} else {
+				at := func(i linN) linN { return linN{0, idx.k*i.b + idx.b, idx.k*i.n + idx.n, true} }
+				f, l := at(init), at(lastI)
+				if idx.k*cl.step != -1 {
+					ok = false
+					why = append(why, "the remaining elements are not consumed from the most significant chunk downwards")
+				}
+				if !(f.b == -2 && f.n == 1 && l.b == 0 && l.n == 0) {
+					ok = false
+					why = append(why, fmt.Sprintf("the consuming loop reads chChunks[%d%+d*len] .. chChunks[%d%+d*len], not chChunks[len-2] .. chChunks[0]", f.b, f.n, l.b, l.n))
+				}
+			}
+		}
+		if !core.Precedes(fn, first, loopRead) {
 			ok = false
-			why = append(why, "the consuming loop does not run down to 0")
+			why = append(why, "chChunks[len-1] is not consumed before the loop")
 		}
 		// doublings: an inner loop l < c with one Double
 		var dbl *countedLoop
